@@ -20,6 +20,19 @@ Streams
 * ``over`` / ``ordefault``  the accessors against ``SdkDescend.overOrEmpty`` / ``orDefault`` and the
                 existence of ``over_X_or_empty`` against ``hasOverOrEmpty``.
 
+* ``ctor`` / ``construct`` / ``visitors``  the statements of every generated ``__init__`` against ``SdkCtor.renderBody``, the
+                attribute after the constructor against ``SdkCtor.execStmt``, the methods each of the eight generated visitor /
+                transformer classes declares against ``SdkCtor.declaredMethods``;
+* ``history``   (not a model stream) the text generated for a model AFTER other models in the same process against the text
+                generated for it alone in a fresh process (``harness/c29_fresh.py``); the history-generated module then goes
+                through all the streams above.
+
+Input classes added after the second round of seeded changes: HISTORIES (``history_model`` family: the same names / annotation
+texts re-used as constrained primitive / enumeration / leaf class / nested class / hand-written class / abstract class, in
+both orders; random models with colliding names), IMPLEMENTATION-SPECIFIC classes (complete hand-written snippet) at every
+position (``enumerated_impl_trees``), CONSTRUCTORS WITH DECLARED DEFAULTS of every kind the front end accepts in every order,
+built with and without the defaulted arguments (``ctor_model``, ``Inst.omit`` / ``Inst.nones``).
+
 Names: the seed-independent part runs every enumerated model once per NAME SHAPE (``NAME_SHAPES``: upper-case
 abbreviations, digits, single-letter parts, mixed case, empty parts, leading / trailing underscore — every shape
 ``IDENTIFIER_RE`` and the reserved-name rules accept) for classes, properties, enumerations, literals and constrained
@@ -36,6 +49,7 @@ import ast
 import copy
 import json
 import random
+import time
 import types as pytypes
 from typing import Any, Dict, Iterator, List, Optional, Sequence, Tuple
 
@@ -91,6 +105,8 @@ def mm_to_json(m: mm.MM, defaults: Dict[str, Any]) -> Dict[str, Any]:
                 "name": c.name, "bases": list(c.bases), "abstract": c.abstract, "wmt": c.with_model_type,
                 "props": [[p.name, ty_to_json(p.type)] for p in c.props],
                 "methods": [[me.name, ty_to_json(me.returns)] for me in c.methods],
+                **({"impl": True} if c.impl_specific else {}),
+                **({"ctor": copy.deepcopy(cspec_of(c))} if cspec_of(c) else {}),
             }
             for c in m.classes
         ],
@@ -104,12 +120,12 @@ def mm_to_json(m: mm.MM, defaults: Dict[str, Any]) -> Dict[str, Any]:
 def mm_from_json(d: Dict[str, Any]) -> Tuple[mm.MM, Dict[str, Any]]:
     m = mm.MM(
         classes=[
-            mm.Class(
+            with_cspec(mm.Class(
                 c["name"], bases=list(c["bases"]), abstract=c["abstract"], with_model_type=c["wmt"],
                 props=[mm.Prop(n, ty_from_json(t)) for n, t in c["props"]],
                 methods=[mm.Method(n, returns=ty_from_json(t), impl_specific=True) for n, t in c.get("methods", [])],
-                description=_descr(c["name"]),
-            )
+                description=_descr(c["name"]), impl_specific=bool(c.get("impl", False)),
+            ), c.get("ctor"))
             for c in d["classes"]
         ],
         enums=[mm.Enum.of(e["name"], [(n, dec_text(v)) for n, v in e["literals"]], description="Represent an enumeration.") for e in d["enums"]],
@@ -134,6 +150,133 @@ def project(m: mm.MM) -> mm.MM:
     return out
 
 
+# =========================================================================== constructors with defaults, hand-written classes
+#
+# (added after the seeded changes C29-5 / C29-6)
+#
+# ``Class.cspec`` (a plain JSON-able dict, absent = the canonical constructor) describes the constructor of a class the way the
+# front end understands it (``intermediate/construction.py`` + the argument defaults of ``intermediate/_translate.py``):
+#
+#   "order":    own property names in the order of the assignment statements (default: declaration order)
+#   "super_at": number of assignment statements written BEFORE the calls of the super constructors (default 0)
+#   "stmt":     {own property: {"d": ["list"] | ["enum", <enumeration>, <literal>], "form": "isnot" | "is"}} — the statement
+#               ``self.x = x if x is not None else D``  /  ``self.x = D if x is None else x``
+#   "sig":      {own REQUIRED property: jsonable value} — a default in the signature (``level: int = 7``, ``hue: Color = Color.Red``);
+#               optional arguments always default to ``None`` (the front end demands it)
+#
+# ``Class.impl_specific``: the whole class is taken from the snippet ``Types/<name>.py``; the harness supplies a complete
+# hand-written class (``impl_class_snippet``).
+
+
+def cspec_of(c: mm.Class) -> Dict[str, Any]:
+    return getattr(c, "cspec", None) or {}
+
+
+def with_cspec(c: mm.Class, spec: Optional[Dict[str, Any]]) -> mm.Class:
+    if spec:
+        c.cspec = copy.deepcopy(spec)  # type: ignore[attr-defined]
+    return c
+
+
+def stmt_order(c: mm.Class) -> List[str]:
+    """Own properties in the order of their assignment statements (properties the specification does not name come first)."""
+    order = list(cspec_of(c).get("order") or [])
+    return [p.name for p in c.props if p.name not in order] + order
+
+
+def uses_ctor_specs(m: mm.MM) -> bool:
+    return any(cspec_of(c) for c in m.classes)
+
+
+def stmt_default_value(st: Dict[str, Any]) -> Any:
+    """The abstract value of a statement default (a FRESH list every time)."""
+    return [] if st["d"][0] == "list" else EnumVal(st["d"][1], st["d"][2])
+
+
+def declared_default(m: mm.MM, owner: str, pname: str) -> Optional[Tuple[str, Any]]:
+    """``("sig", value)`` / ``("stmt", value)`` / None: what the meta-model declares for a missing argument of the property."""
+    spec = cspec_of(m.cls(owner))
+    if pname in spec.get("sig", {}):
+        return "sig", W.from_jsonable(spec["sig"][pname])
+    if pname in spec.get("stmt", {}):
+        return "stmt", stmt_default_value(spec["stmt"][pname])
+    return None
+
+
+def _mm_literal(v: Any) -> str:
+    """A default value as the source text of the META-MODEL (a Python literal / ``Enum.Literal``)."""
+    if isinstance(v, EnumVal):
+        return f"{v.enum}.{v.literal}"
+    if isinstance(v, str):
+        return ascii(v)
+    assert isinstance(v, (bool, int, float)), v
+    return repr(v)
+
+
+def build_ctor(m: mm.MM, cname: str) -> Optional[mm.Ctor]:
+    """The constructor of a class according to the ``cspec`` of the class and of its ancestors (``mm.default_ctor`` if there are none)."""
+    c = m.cls(cname)
+    props = mm.all_props(m, cname)
+    if not props:
+        return None
+
+    def default_text(p: mm.Prop, owner: str) -> Optional[str]:
+        d = declared_default(m, owner, p.name)
+        if d is not None and d[0] == "sig":
+            return _mm_literal(d[1])
+        return "None" if mm.is_optional(p.type) else None
+
+    # the front end wants: arguments without a default in property order, then those with a default in property order
+    args = [mm.Arg(p.name, p.type) for p, o in props if default_text(p, o) is None]
+    args += [mm.Arg(p.name, p.type, default_text(p, o)) for p, o in props if default_text(p, o) is not None]
+    super_calls: List[Tuple[str, List[str], List[Tuple[str, str]]]] = []
+    for b in c.bases:
+        bc = build_ctor(m, b)
+        if bc is not None:
+            super_calls.append((b, [a.name for a in bc.args], []))
+    spec = cspec_of(c)
+    assigns: List[Tuple[str, str]] = []
+    for n in stmt_order(c):
+        st = spec.get("stmt", {}).get(n)
+        if st is None:
+            assigns.append((n, n))
+        else:
+            d = _mm_literal(stmt_default_value(st)) if st["d"][0] != "list" else "[]"
+            assigns.append((n, f"{n} if {n} is not None else {d}" if st.get("form", "isnot") == "isnot" else f"{d} if {n} is None else {n}"))
+    return mm.Ctor(args=args, super_calls=super_calls, assigns=assigns)
+
+
+def render_with_ctors(m: mm.MM) -> str:
+    """``mm.render``; with constructor specifications every class gets its explicit constructor, the super calls at ``super_at``."""
+    if not uses_ctor_specs(m):
+        return mm.render(m)
+    saved = [c.ctor for c in m.classes]
+    try:
+        for c in m.classes:
+            c.ctor = build_ctor(m, c.name)
+        text = mm.render(m)
+        moves = [(c.name, len(c.ctor.super_calls), int(cspec_of(c).get("super_at", 0))) for c in m.classes
+                 if c.ctor is not None and c.ctor.super_calls and cspec_of(c).get("super_at", 0)]
+    finally:
+        for c, old in zip(m.classes, saved):
+            c.ctor = old
+    if not moves:
+        return text
+    lines = text.split("\n")
+    for cname, n_super, k in moves:
+        start = next(i for i, ln in enumerate(lines) if ln.startswith(f"class {cname}("))
+        first = next(i for i in range(start, len(lines)) if lines[i].startswith("        ") and ".__init__(self" in lines[i])
+        calls = lines[first:first + n_super]
+        assigns = []
+        j = first + n_super
+        while j < len(lines) and lines[j].startswith("        self."):
+            assigns.append(lines[j])
+            j += 1
+        k = min(k, len(assigns))
+        lines[first:j] = assigns[:k] + calls + assigns[k:]
+    return "\n".join(lines)
+
+
 # =========================================================================== the generated module
 
 
@@ -144,8 +287,10 @@ class Sdk:
         self.mm = m
         self.defaults = defaults  # "Class.method" -> abstract default value
         #: ``source``/``spec``: an existing meta-model text + snippets of which ``m`` is the abstraction (``mm_from_symbol_table``)
-        self.source = mm.render(m) if source is None else source
+        self.source = render_with_ctors(m) if source is None else source
         self.spec = spec
+        #: property order of every class as the front end computed it
+        self.front_order: Optional[Dict[str, List[str]]] = None
         self.error: Optional[str] = None
         self.crash: Optional[str] = None
         self.code: Optional[str] = None
@@ -157,6 +302,8 @@ class Sdk:
         self.tree: Any = None
         self.recorders: Any = None
         self._props: Dict[str, List[Any]] = {}
+        #: id(list) -> (list, instance): the default lists seen in this module (``judge_constructed``)
+        self.default_lists: Dict[int, Any] = {}
 
     def props(self, cls: str) -> List[Any]:
         """``mm.all_props`` (cached): ``[(Prop, owner)]``"""
@@ -174,15 +321,98 @@ class Sdk:
             return dict(self.spec)
         out: Dict[str, str] = {}
         for c in self.mm.classes:
+            if c.impl_specific:
+                out[f"Types/{c.name}.py"] = self.impl_class_snippet(c)
+                continue
             for me in c.methods:
-                assert me.name.endswith("_or_default")
-                prop = N.property_name(Identifier(me.name[: -len("_or_default")]))
-                default = self.default_code(self.defaults[f"{c.name}.{me.name}"])
-                out[f"Types/{c.name}/{me.name}.py"] = (
-                    f"def {N.method_name(Identifier(me.name))}(self):  # type: ignore\n"
-                    f"    return self.{prop} if self.{prop} is not None else {default}"
-                )
+                out[f"Types/{c.name}/{me.name}.py"] = self.method_snippet(c, me)
         return out
+
+    def method_snippet(self, c: mm.Class, me: mm.Method) -> str:
+        from aas_core_codegen.common import Identifier
+        from aas_core_codegen.python import naming as N
+
+        assert me.name.endswith("_or_default")
+        prop = N.property_name(Identifier(me.name[: -len("_or_default")]))
+        default = self.default_code(self.defaults[f"{c.name}.{me.name}"])
+        return (
+            f"def {N.method_name(Identifier(me.name))}(self):  # type: ignore\n"
+            f"    return self.{prop} if self.{prop} is not None else {default}"
+        )
+
+    def impl_class_snippet(self, c: mm.Class) -> str:
+        """
+        ``Types/<name>.py`` of an implementation-specific class: a COMPLETE hand-written class (constructor with the declared
+        defaults, ``over_X_or_empty``, and for a concrete class ``descend_once`` / ``descend`` / the four dispatch methods) —
+        what a user of the generator has to supply.  Written by reflection over the attribute values, not with the generator.
+        """
+        from aas_core_codegen.common import Identifier
+        from aas_core_codegen.python import naming as N
+
+        m = self.mm
+        ctor = build_ctor(m, c.name)
+        bases = [str(N.class_name(Identifier(b))) for b in c.bases] or ["Class"]
+        out = [f"class {N.class_name(Identifier(c.name))}({', '.join(bases)}):", '    """Represent a hand-written class."""', ""]
+        if ctor is not None:
+            owner_of = {p.name: o for p, o in mm.all_props(m, c.name)}
+            args = ["self"]
+            for a in ctor.args:
+                d = declared_default(m, owner_of[a.name], a.name)
+                code = None if a.default is None else ("None" if a.default == "None" else self.default_code(d[1]))  # type: ignore[index]
+                args.append(str(N.argument_name(Identifier(a.name))) + ("" if code is None else f"={code}"))
+            out.append(f"    def __init__({', '.join(args)}) -> None:")
+            body = [f"        {N.class_name(Identifier(b))}.__init__({', '.join(['self'] + [str(N.argument_name(Identifier(n))) for n in pos])})"
+                    for b, pos, _kw in ctor.super_calls]
+            assigns = []
+            for n in stmt_order(c):
+                st = cspec_of(c).get("stmt", {}).get(n)
+                arg, prop = N.argument_name(Identifier(n)), N.property_name(Identifier(n))
+                assigns.append(f"        self.{prop} = {arg}" if st is None else
+                               f"        self.{prop} = {arg} if {arg} is not None else {self.default_code(stmt_default_value(st))}")
+            k = min(int(cspec_of(c).get("super_at", 0)), len(assigns))
+            out += (assigns[:k] + body + assigns[k:]) or ["        pass"]
+            out.append("")
+        for p in c.props:
+            if isinstance(p.type, mm.OptionalOf) and isinstance(p.type.item, mm.ListOf):
+                pn = N.property_name(Identifier(p.name))
+                out += [f"    def over_{pn}_or_empty(self):  # type: ignore", f"        if self.{pn} is not None:", f"            yield from self.{pn}", ""]
+        for me in c.methods:
+            out += ["    " + ln for ln in self.method_snippet(c, me).split("\n")] + [""]
+        if not c.abstract:
+            attrs = "".join(f"self.{N.property_name(Identifier(p.name))}, " for p, _o in mm.all_props(m, c.name))
+            out += [
+                "    def descend_once(self):  # type: ignore",
+                "        def flat(value):  # type: ignore",
+                "            if isinstance(value, Class):",
+                "                yield value",
+                "            elif isinstance(value, list):",
+                "                for item in value:",
+                "                    yield from flat(item)",
+                "",
+                f"        for value in ({attrs}):",
+                "            yield from flat(value)",
+                "",
+                "    def descend(self):  # type: ignore",
+                "        for child in self.descend_once():",
+                "            yield child",
+                "            yield from child.descend()",
+                "",
+                "    def accept(self, visitor):  # type: ignore",
+                f"        visitor.{N.method_name(Identifier('visit_' + c.name))}(self)",
+                "",
+                "    def accept_with_context(self, visitor, context):  # type: ignore",
+                f"        visitor.{N.method_name(Identifier('visit_' + c.name + '_with_context'))}(self, context)",
+                "",
+                "    def transform(self, transformer):  # type: ignore",
+                f"        return transformer.{N.method_name(Identifier('transform_' + c.name))}(self)",
+                "",
+                "    def transform_with_context(self, transformer, context):  # type: ignore",
+                f"        return transformer.{N.method_name(Identifier('transform_' + c.name + '_with_context'))}(self, context)",
+                "",
+            ]
+        while out[-1] == "":
+            out.pop()
+        return "\n".join(out)
 
     def default_code(self, v: Any) -> str:
         from aas_core_codegen.common import Identifier
@@ -202,6 +432,7 @@ class Sdk:
             self.error, self.crash = ld.error, ld.crash
             return self
         self.symbol_table = ld.symbol_table
+        self.front_order = {str(c.name): [str(p.name) for p in c.properties] for c in ld.symbol_table.classes}
         try:  # the project's code
             verified, errors = python_lib.verify_for_types(symbol_table=ld.symbol_table)
             if errors is not None:
@@ -219,6 +450,25 @@ class Sdk:
                 raise
             self.crash = crash_name(e)
             return self
+        return self.adopt(code, module_name)
+
+    def job(self, module_name: str = "aasv_c29") -> Dict[str, Any]:
+        """The model as a job of ``c29_fresh`` (generation in another process)."""
+        return {"source": self.source, "snippets": self.snippets(), "module": module_name}
+
+    def adopt_result(self, res: Dict[str, Any], module_name: str = "aasv_c29") -> "Sdk":
+        """Take over what another process generated for this model (``c29_fresh.generate_one``)."""
+        if "code" not in res:
+            self.error, self.crash = res.get("error"), res.get("crash")
+            return self
+        self.front_order = res.get("order")
+        return self.adopt(res["code"], module_name)
+
+    def adopt(self, code: str, module_name: str = "aasv_c29") -> "Sdk":
+        """Execute the generated text as a module."""
+        from aas_core_codegen.common import Identifier
+        from aas_core_codegen.python import naming as N
+
         self.code = code
         mod = pytypes.ModuleType(module_name + ".types")
         try:
@@ -276,7 +526,14 @@ class Sdk:
             if v.obj is not None:
                 return v.obj  # shared object: the same instance at a second place
             props = self.props(v.cls)
-            kwargs = {self.prop_name(p.name): self.realise(x) for (p, _o), x in zip(props, v.fields)}
+            kwargs = {}
+            for i, ((p, _o), x) in enumerate(zip(props, v.fields)):
+                if i in v.omit:
+                    self.realise_nested(x)  # (a default holds no instances; kept general)
+                elif i in v.nones:
+                    kwargs[self.arg_name(p.name)] = None
+                else:
+                    kwargs[self.arg_name(p.name)] = self.realise(x)
             v.obj = self.py_class[v.cls](**kwargs)
             return v.obj
         if isinstance(v, list):
@@ -284,6 +541,20 @@ class Sdk:
         if isinstance(v, EnumVal):
             return self.enum_member(v)
         return v
+
+    def realise_nested(self, v: Any) -> None:
+        for i in W.walk_insts(v):
+            self.realise(i)
+
+    @staticmethod
+    def arg_name(name: str) -> str:
+        r = Sdk._names.get(("a", name))
+        if r is None:
+            from aas_core_codegen.common import Identifier
+            from aas_core_codegen.python import naming as N
+
+            r = Sdk._names[("a", name)] = str(N.argument_name(Identifier(name)))
+        return r
 
     # ---- SDK object -> abstract value (reflection; for printing what the SDK yielded)
     def abstract(self, o: Any) -> Any:
@@ -293,7 +564,7 @@ class Sdk:
             return [self.abstract(x) for x in o]
         if type(o) in self.meta_of:
             name = self.meta_of[type(o)]
-            return Inst(name, [self.abstract(getattr(o, self.prop_name(p.name))) for p, _o in self.props(name)])
+            return Inst(name, [self.abstract(getattr(o, self.prop_name(p.name), "<no attribute>")) for p, _o in self.props(name)])
         for ename, k in self.py_enum.items():
             if isinstance(o, k):
                 e = self.mm.find(ename)
@@ -479,7 +750,8 @@ def _flatten(sdk: Sdk, v: Any) -> Iterator[Any]:
 def oracle_children(sdk: Sdk, o: Any) -> List[Any]:
     out: List[Any] = []
     for p, _owner in sdk.props(sdk.meta_of[type(o)]):
-        out += list(_flatten(sdk, getattr(o, sdk.prop_name(p.name))))
+        # (an attribute the constructor did not set is reported by ``judge_constructed``; nothing is nested there)
+        out += list(_flatten(sdk, getattr(o, sdk.prop_name(p.name), None)))
     return out
 
 
@@ -508,10 +780,66 @@ def shape_of(sdk: Sdk, got: Any, want: List[Any]) -> str:
     return "wrong-instance"
 
 
+DISPATCHERS = (
+    ("AbstractVisitor", "visit_{}"), ("AbstractVisitorWithContext", "visit_{}_with_context"),
+    ("PassThroughVisitor", "visit_{}"), ("PassThroughVisitorWithContext", "visit_{}_with_context"),
+    ("AbstractTransformer", "transform_{}"), ("AbstractTransformerWithContext", "transform_{}_with_context"),
+    ("TransformerWithDefault", "transform_{}"), ("TransformerWithDefaultAndContext", "transform_{}_with_context"),
+)
+
+
+def judge_module(sdk: Sdk, inp: Dict[str, Any], ctx: Ctx) -> None:
+    """Every visitor / transformer class of the module has the method of EVERY concrete class of the meta-model (also of the
+    hand-written, implementation-specific ones: their ``accept`` / ``transform`` can only dispatch to these methods)."""
+    for kname, pattern in DISPATCHERS:
+        k = getattr(sdk.module, kname, None)
+        missing = [c.name for c in sdk.mm.classes if not c.abstract and not callable(getattr(k, sdk.method_name(pattern.format(c.name)), None))]
+        if k is None or missing:
+            ctx.fail(inp, f"{kname} has no method {[sdk.method_name(pattern.format(n)) for n in missing]} for the concrete classes {missing}",
+                     f"C29:dispatcher-incomplete:{kname}" + (":impl-specific" if missing and all(sdk.mm.cls(n).impl_specific for n in missing) else ""))
+
+
+def holds(sdk: Sdk, actual: Any, want: Any) -> bool:
+    """The attribute value IS the abstract value (instances by identity, everything else by type and value)."""
+    if isinstance(want, Inst):
+        return actual is want.obj
+    if isinstance(want, list):
+        return type(actual) is list and len(actual) == len(want) and all(holds(sdk, x, y) for x, y in zip(actual, want))
+    if isinstance(want, EnumVal):
+        return actual is sdk.enum_member(want)
+    if want is None:
+        return actual is None
+    if isinstance(want, (bytes, bytearray)):
+        return isinstance(actual, (bytes, bytearray)) and bytes(actual) == bytes(want)
+    return type(actual) is type(want) and (actual == want or (isinstance(want, float) and want != want and actual != actual))
+
+
+def judge_constructed(sdk: Sdk, root: Inst, inp: Dict[str, Any], ctx: Ctx) -> None:
+    """After the generated constructor every property holds the argument, or the DECLARED default where the argument was
+    left out / ``None`` (``Inst.omit`` / ``Inst.nones``); two instances never share a default list."""
+    for a in W.walk_insts(root):
+        o = a.obj
+        for i, ((p, owner), want) in enumerate(zip(sdk.props(a.cls), a.fields)):
+            got = getattr(o, sdk.prop_name(p.name), "<no attribute>")
+            missing = i in a.omit or i in a.nones
+            d = declared_default(sdk.mm, owner, p.name) if missing else None
+            kind = "assign" if not missing else ("none" if d is None else ("sig" if d[0] == "sig" else ("list" if isinstance(d[1], list) else "enum")))
+            if missing:
+                ctx.hit(f"ctor:{'omitted' if i in a.omit else 'none-passed'}:{kind}")
+            if not holds(sdk, got, want):
+                ctx.fail(inp, f"{a.cls}.{p.name} holds {got!r} after the constructor (argument {'omitted' if i in a.omit else ('None' if i in a.nones else 'passed')}); "
+                              f"expected {W.jsonable(want)!r}", f"C29:constructor:{'default-' + kind if missing else 'assign'}")
+            elif missing and kind == "list":
+                other = sdk.default_lists.setdefault(id(got), (got, o))
+                if other[1] is not o:
+                    ctx.fail(inp, f"two instances share the default list of {a.cls}.{p.name}", "C29:constructor:default-list:shared")
+
+
 def judge(sdk: Sdk, root: Inst, inp: Dict[str, Any], ctx: Ctx) -> None:
     """The statement of C29 decided on one instance tree of the real module."""
     mod = sdk.module
     recs = make_recorders(sdk)
+    judge_constructed(sdk, root, inp, ctx)
     for a in W.walk_insts(root):
         o = a.obj
         cls = sdk.meta_of[type(o)]
@@ -546,19 +874,33 @@ def judge(sdk: Sdk, root: Inst, inp: Dict[str, Any], ctx: Ctx) -> None:
                          f"C29:dispatch:{kind}")
         # --- accessors
         for p, _owner in sdk.props(cls):
-            v = getattr(o, sdk.prop_name(p.name))
+            v = getattr(o, sdk.prop_name(p.name), "<no attribute>")
             acc = f"over_{sdk.prop_name(p.name)}_or_empty"
             if isinstance(p.type, mm.OptionalOf) and isinstance(p.type.item, mm.ListOf):
                 got = run_list(getattr(o, acc)) if hasattr(o, acc) else "missing-accessor"
-                want = [] if v is None else list(v)
+                want = [] if v is None else (list(v) if isinstance(v, list) else ["<the value is not a list>"])
                 if not same_objects(got, want):
                     ctx.fail(inp, f"{cls}.{acc}() gives {got!r} for the value {v!r}", "C29:over_or_empty:" + ("none" if v is None else "set"))
+                if isinstance(v, list) and declared_default(sdk.mm, _owner, p.name) is not None:
+                    # a property with a declared default list is still OPTIONAL: it may be set to None afterwards
+                    setattr(o, sdk.prop_name(p.name), None)
+                    try:
+                        got = run_list(getattr(o, acc)) if hasattr(o, acc) else "missing-accessor"
+                        if got != []:
+                            ctx.fail(inp, f"{cls}.{acc}() gives {got!r} after {p.name} was set to None", "C29:over_or_empty:none")
+                        got1, want1n = run_list(o.descend_once), oracle_children(sdk, o)
+                        if not same_objects(got1, want1n):
+                            ctx.fail(inp, f"{cls}.descend_once() yields {_names(sdk, got1)} after {p.name} was set to None, directly nested are {_names(sdk, want1n)}",
+                                     f"C29:descend_once:{shape_of(sdk, got1, want1n)}")
+                        ctx.hit("over:none-after-default")
+                    finally:
+                        setattr(o, sdk.prop_name(p.name), v)
             elif hasattr(o, acc):
                 ctx.fail(inp, f"{cls}.{acc} exists although {p.name} is not an optional list", "C29:over_or_empty:unexpected")
         for c in [cls] + mm.ancestors(sdk.mm, cls):
             for me in sdk.mm.cls(c).methods:
                 pname = me.name[: -len("_or_default")]
-                v = getattr(o, sdk.prop_name(pname))
+                v = getattr(o, sdk.prop_name(pname), "<no attribute>")
                 try:
                     got = getattr(o, sdk.method_name(me.name))()
                 except BaseException as e:  # noqa: B902
@@ -569,6 +911,17 @@ def judge(sdk: Sdk, root: Inst, inp: Dict[str, Any], ctx: Ctx) -> None:
                 same = got is want if (v is not None or isinstance(want, mod.Class)) else (type(got) is type(want) and got == want)
                 if not same:
                     ctx.fail(inp, f"{cls}.{me.name}() gives {got!r} for the value {v!r} (default {want!r})", "C29:or_default:" + ("none" if v is None else "set"))
+        # --- the transformers with a default give the default for an instance of EVERY concrete class
+        for kname, with_context in (("TransformerWithDefault", False), ("TransformerWithDefaultAndContext", True)):
+            try:
+                t = getattr(mod, kname)("dflt")
+                r = t.transform_with_context(o, object()) if with_context else t.transform(o)
+            except BaseException as e:  # noqa: B902
+                if isinstance(e, (KeyboardInterrupt, SystemExit)):
+                    raise
+                r = crash_name(e)
+            if r != "dflt":
+                ctx.fail(inp, f"{kname} gives {r!r} for an instance of {cls}", "C29:transformer_with_default" + (":context" if with_context else ""))
     # --- the pass-through visitors walk the whole tree in pre-order
     seen: List[Any] = []
     methods = {}
@@ -585,15 +938,25 @@ def judge(sdk: Sdk, root: Inst, inp: Dict[str, Any], ctx: Ctx) -> None:
     want = [root.obj] + oracle_below(sdk, root.obj)
     if not same_objects(seen, want):
         ctx.fail(inp, f"PassThroughVisitor visits {_names(sdk, seen)}, the pre-order is {_names(sdk, want)}", "C29:pass_through:" + shape_of(sdk, seen, want))
-    # --- TransformerWithDefault returns the default for every class
+    # … and so does the variant with a context, handing the context on; a pass-through visitor that overrides NOTHING ends
+    seen = []
+    token = object()
+    methods = {}
+    for c in sdk.mm.classes:
+        if not c.abstract:
+            n = sdk.method_name(f"visit_{c.name}_with_context")
+            methods[n] = (lambda n: lambda self, that, context: (seen.append(that if context is token else "wrong-context"),
+                                                                 getattr(mod.PassThroughVisitorWithContext, n)(self, that, context))[1])(n)
     try:
-        r = mod.TransformerWithDefault("dflt").transform(root.obj)
+        type("RecPassCtx", (mod.PassThroughVisitorWithContext,), methods)().visit_with_context(root.obj, token)
+        mod.PassThroughVisitor().visit(root.obj)
     except BaseException as e:  # noqa: B902
         if isinstance(e, (KeyboardInterrupt, SystemExit)):
             raise
-        r = crash_name(e)
-    if r != "dflt":
-        ctx.fail(inp, f"TransformerWithDefault.transform gives {r!r}", "C29:transformer_with_default")
+        seen = [crash_name(e)]
+    if not same_objects(seen, want):
+        ctx.fail(inp, f"PassThroughVisitorWithContext visits {_names(sdk, seen)}, the pre-order is {_names(sdk, want)}",
+                 "C29:pass_through_with_context:" + shape_of(sdk, seen, want))
 
 
 def _names(sdk: Sdk, xs: Any) -> Any:
@@ -601,6 +964,9 @@ def _names(sdk: Sdk, xs: Any) -> Any:
         return xs
     out = []
     for x in xs:
+        if isinstance(x, str):
+            out.append(x)
+            continue
         n = sdk.meta_of.get(type(x), type(x).__name__)
         ident = getattr(x, "ident", None)
         out.append(f"{n}#{ident}" if ident is not None else n)
@@ -642,6 +1008,21 @@ def correspond_tree(sdk: Sdk, mmw: str, root: Inst, inp: Dict[str, Any], ctx: Ct
                     f"{stem}_{c.name}" + ("_with_context" if kind.endswith("with_context") else "") for c in sdk.mm.classes}
             impl = enc_text(meta.get(called[0], "?" + called[0])) if not isinstance(res, str) or not res.startswith("crash:") else res
             batch.append(("dispatch", f"dispatch {kind} {mmw} {enc_text(cls)} {mro}", impl, inp))
+        if not sdk.mm.cls(cls).impl_specific:
+            for k, ((p, owner), v) in enumerate(zip(sdk.props(cls), a.fields)):
+                missing = k in a.omit or k in a.nones
+                if not missing and not (cspec_of(sdk.mm.cls(owner)) and p.name != "ident"):
+                    continue
+                d = declared_default(sdk.mm, owner, p.name)
+                code = "N" if d is None or d[0] == "sig" else ("L" if isinstance(d[1], list) else f"E,{enc_text(d[1].enum)},{enc_text(d[1].literal)}")
+                arg = v if not missing or (d is not None and d[0] == "sig") else None  # (an omitted argument is its signature default)
+                try:
+                    got = W.val_wire(sdk.abstract(getattr(o, sdk.prop_name(p.name))))
+                except BaseException as e:  # noqa: B902
+                    if isinstance(e, (KeyboardInterrupt, SystemExit)):
+                        raise
+                    got = crash_name(e)
+                batch.append(("construct", f"construct {code} {W.val_wire(arg)}", got, inp))
         for (p, _owner), v in zip(sdk.props(cls), a.fields):
             acc = f"over_{sdk.prop_name(p.name)}_or_empty"
             if hasattr(o, acc):
@@ -668,7 +1049,7 @@ def correspond_tree(sdk: Sdk, mmw: str, root: Inst, inp: Dict[str, Any], ctx: Ct
 
 def correspond_bodies(sdk: Sdk, inp: Dict[str, Any], ctx: Ctx, batch: List[Any]) -> None:
     for c in sdk.mm.classes:
-        if c.abstract:
+        if c.abstract or c.impl_specific:  # (a hand-written class is not the generator's text)
             continue
         props = sdk.props(c.name)
         for method, flag in (("descend_once", "0"), ("descend", "1")):
@@ -686,6 +1067,102 @@ def correspond_bodies(sdk: Sdk, inp: Dict[str, Any], ctx: Ctx, batch: List[Any])
                 batch.append(("body", f"block {flag} {W.ty_wire(sdk.mm, p.type)}", impl, {"mm": inp["mm"], "class": c.name, "prop": p.name, "method": method}))
 
 
+def meta_stmts(m: mm.MM, c: mm.Class) -> List[str]:
+    """The constructor statements of a class as the META-MODEL states them (wire of ``SdkCtor.Stmt``)."""
+    ctor = build_ctor(m, c.name)
+    if ctor is None:
+        return []
+    spec = cspec_of(c)
+    calls = ["S," + enc_text(b) for b, _pos, _kw in ctor.super_calls]
+    assigns = []
+    for n in stmt_order(c):
+        st = spec.get("stmt", {}).get(n)
+        d = "N" if st is None else ("L" if st["d"][0] == "list" else f"E,{enc_text(st['d'][1])},{enc_text(st['d'][2])}")
+        assigns.append(f"A,{enc_text(n)},{enc_text(n)},{d}")
+    k = min(int(spec.get("super_at", 0)), len(assigns))
+    return assigns[:k] + calls + assigns[k:]
+
+
+def observe_ctor(sdk: Sdk, c: mm.Class) -> str:
+    """The statements of the generated ``__init__`` of a class, read back with ``ast`` (names mapped to the meta-model's)."""
+    from aas_core_codegen.common import Identifier
+    from aas_core_codegen.python import naming as N
+
+    if sdk.tree is None:
+        sdk.tree = ast.parse(sdk.code or "")
+    want = str(N.class_name(Identifier(c.name)))
+    node = next((n for n in sdk.tree.body if isinstance(n, ast.ClassDef) and n.name == want), None)
+    if node is None:
+        return "no-class"
+    init = next((f for f in node.body if isinstance(f, ast.FunctionDef) and f.name == "__init__"), None)
+    if init is None:
+        return "[]"
+    cls_of = {str(N.class_name(Identifier(x.name))): x.name for x in sdk.mm.classes}
+    prop_of = {sdk.prop_name(p.name): p.name for p, _o in sdk.props(c.name)}
+    enum_of = {str(N.enum_name(Identifier(e.name))): e for e in sdk.mm.enums}
+
+    def name(table: Dict[str, str], py: str) -> str:
+        return enc_text(table[py]) if py in table else "?" + py
+
+    out = []
+    for st in init.body:
+        if isinstance(st, ast.Expr) and isinstance(st.value, ast.Constant) and isinstance(st.value.value, str):
+            continue
+        if (isinstance(st, ast.Expr) and isinstance(st.value, ast.Call) and isinstance(st.value.func, ast.Attribute) and st.value.func.attr == "__init__"
+                and isinstance(st.value.func.value, ast.Name)):
+            out.append("super," + name(cls_of, st.value.func.value.id))
+            continue
+        if (isinstance(st, ast.Assign) and len(st.targets) == 1 and isinstance(st.targets[0], ast.Attribute) and isinstance(st.targets[0].value, ast.Name)
+                and st.targets[0].value.id == "self"):
+            p = name(prop_of, st.targets[0].attr)
+            v = st.value
+            if isinstance(v, ast.Name):
+                out.append(f"set,{p},{name(prop_of, v.id)}")
+                continue
+            if (isinstance(v, ast.IfExp) and isinstance(v.test, ast.Compare) and isinstance(v.test.left, ast.Name) and len(v.test.ops) == 1
+                    and isinstance(v.test.ops[0], ast.IsNot) and isinstance(v.test.comparators[0], ast.Constant) and v.test.comparators[0].value is None
+                    and isinstance(v.body, ast.Name) and v.body.id == v.test.left.id):
+                d = v.orelse
+                if isinstance(d, ast.List) and not d.elts:
+                    code = "L"
+                elif isinstance(d, ast.Attribute) and isinstance(d.value, ast.Name) and d.value.id in enum_of:
+                    e = enum_of[d.value.id]
+                    lit = next((li.name for li in e.literals if str(N.enum_literal_name(Identifier(li.name))) == d.attr), None)
+                    code = f"E,{enc_text(e.name)}," + (enc_text(lit) if lit is not None else "?" + d.attr)
+                else:
+                    code = "?" + ast.unparse(d)
+                out.append(f"setd,{p},{name(prop_of, v.body.id)},{code}")
+                continue
+        out.append("?" + ast.unparse(st)[:80].replace(" ", "_").replace("\n", "|"))
+    return ";".join(out) if out else "[]"
+
+
+def correspond_ctors(sdk: Sdk, inp: Dict[str, Any], ctx: Ctx, batch: List[Any]) -> None:
+    """Stream ``ctor``: the generated ``__init__`` of every generated class against ``SdkCtor.renderBody``."""
+    for c in sdk.mm.classes:
+        if c.impl_specific:
+            continue
+        stmts = meta_stmts(sdk.mm, c)
+        batch.append(("ctor", "ctor " + (";".join(stmts) if stmts else "[]"), observe_ctor(sdk, c), {"mm": inp["mm"], "class": c.name}))
+        ctx.hit("ctor:body:" + ("defaults" if any(x.endswith(",L") or ",E," in x for x in stmts) else "plain"))
+
+
+def correspond_visitors(sdk: Sdk, mmw: str, inp: Dict[str, Any], ctx: Ctx, batch: List[Any]) -> None:
+    """Stream ``visitors``: the methods each of the eight generated visitor / transformer classes declares against
+    ``SdkCtor.declaredMethods`` (in the order of the meta-model unless the model was rendered in another order)."""
+    if sdk.tree is None:
+        sdk.tree = ast.parse(sdk.code or "")
+    for kname, pattern in DISPATCHERS:
+        node = next((n for n in sdk.tree.body if isinstance(n, ast.ClassDef) and n.name == kname), None)
+        if node is None:
+            batch.append(("visitors", f"visitors {kname} {mmw}", "no-class", inp))
+            continue
+        meta = {sdk.method_name(pattern.format(c.name)): pattern.format(c.name) for c in sdk.mm.classes}
+        generic = {"visit", "visit_with_context", "transform", "transform_with_context", "__init__"}
+        got = [meta.get(f.name, "?" + f.name) for f in node.body if isinstance(f, ast.FunctionDef) and f.name not in generic]
+        batch.append(("visitors" if sdk.mm.order is None else "visitors:set", f"visitors {kname} {mmw}", enc_list(got if sdk.mm.order is None else sorted(got)), inp))
+
+
 def flush(ctx: Ctx, batch: List[Any]) -> None:
     if not batch or not ctx.driver_ok:
         del batch[:]
@@ -693,6 +1170,8 @@ def flush(ctx: Ctx, batch: List[Any]) -> None:
     answers = ctx.model([b[1] for b in batch])
     for (stream, line, impl, inp), want in zip(batch, answers):
         ctx.traces_validated += 1
+        if stream == "visitors:set":  # (a model rendered in an explicit order: the order of the methods is not compared)
+            want, impl = ",".join(sorted(want.split(","))), ",".join(sorted(impl.split(",")))
         if impl != want:
             ctx.disagree(stream, {"request": line[:2000], **({"input": inp} if isinstance(inp, dict) else {})}, impl, want)
     del batch[:]
@@ -715,6 +1194,7 @@ class Builder:
         self.counter = 0
         self.made: List[Inst] = []
         self.req = required_depth(m)
+        self.specs = uses_ctor_specs(m)
 
     def concrete_of(self, name: str) -> List[str]:
         c = self.mm.cls(name)
@@ -751,14 +1231,45 @@ class Builder:
         self.counter += 1
         ident = self.counter
         fields = []
-        for p, _owner in mm.all_props(self.mm, cls):
+        omit: List[int] = []
+        nones: List[int] = []
+        for k, (p, owner) in enumerate(mm.all_props(self.mm, cls)):
             if p.name == "ident" and p.type == P("int"):
                 fields.append(ident)
-            else:
-                fields.append(self.value(p.type, depth))
-        i = Inst(cls, fields)
+                continue
+            v = self.value(p.type, depth)
+            if self.specs:
+                # constructors with declared defaults: leave arguments out / pass None; the field is what the property must hold then
+                d = declared_default(self.mm, owner, p.name)
+                if d is not None and d[0] == "stmt" and v is None:
+                    v = d[1]
+                    (omit if self.rng.random() < 0.5 else nones).append(k)
+                elif d is not None and d[0] == "sig" and self.rng.random() < 0.35:
+                    v = d[1]
+                    omit.append(k)
+                elif v is None and self.rng.random() < 0.5:
+                    omit.append(k)
+            fields.append(v)
+        i = Inst(cls, fields, omit=omit, nones=nones)
         self.made.append(i)
         return i
+
+    def present(self, t: Any, avoid: Any = None) -> Any:
+        """A deterministic value that is 'there': no None, lists of two, an enumeration literal other than ``avoid``."""
+        if isinstance(t, mm.OptionalOf):
+            return self.present(t.item, avoid)
+        if isinstance(t, mm.ListOf):
+            return [self.present(t.item, avoid), self.present(t.item, avoid)]
+        if isinstance(t, mm.Prim):
+            return [x for x in LEAF_VALUES[t.name] if x != avoid][-1]
+        x = self.mm.find(t.name)
+        if isinstance(x, mm.Enum):
+            return [EnumVal(x.name, li.name) for li in x.literals if EnumVal(x.name, li.name) != avoid][-1]
+        if isinstance(x, mm.ConstrainedPrimitive):
+            return LEAF_VALUES[x.base][1]
+        cands = [c for c in self.concrete_of(t.name) if self.req[c] < 10**6]
+        self.counter += 1
+        return self.instance(cands[self.counter % len(cands)], 1)
 
 
 def required_depth(m: mm.MM) -> Dict[str, int]:
@@ -887,6 +1398,337 @@ def enumerated_trees() -> Iterator[Tuple[mm.MM, Dict[str, Any], List[Inst], str]
     yield m2, d2, [b2.instance(c, d) for c in ("Both", "Both_more", "Only_left") for d in (1, 2, 3, 4)], "enumerated"
 
 
+# ---- constructors with declared defaults (added after the seeded change C29-6)
+
+#: kind of a property with a default -> (type, where the default is declared, the default); ``E`` gets its literal by position
+CTOR_KINDS: Dict[str, Tuple[Any, Optional[str], Any]] = {
+    "N": (O(R("Leaf")), None, None),                      # optional, no declared default (the argument defaults to None)
+    "Lc": (O(L(R("Leaf"))), "stmt", ["list"]),            # `[]`-default statements over every kind of list
+    "Ls": (O(L(P("str"))), "stmt", ["list"]),
+    "Ll": (O(L(L(R("Leaf")))), "stmt", ["list"]),
+    "Le": (O(L(R("Color"))), "stmt", ["list"]),
+    "E": (O(R("Color")), "stmt", ["enum", "Color", None]),  # enumeration literal default statement
+    "Lr": (L(R("Leaf")), "stmt", ["list"]),               # a REQUIRED argument with a `[]`-default statement
+    "Pi": (P("int"), "sig", 7),                           # primitive defaults in the signature
+    "Ps": (P("str"), "sig", "say \"hi\""),
+    "Pb": (P("bool"), "sig", True),
+    "Pf": (P("float"), "sig", 2.5),
+    "S": (R("Color"), "sig", EnumVal("Color", "Green")),  # enumeration literal default in the signature
+}
+CTOR_LITERALS = ["Red", "Green", "Blue"]
+
+
+def ctor_class(name: str, kinds: Sequence[str], *, decl: Optional[Sequence[int]] = None, forms: str = "isnot", bases: Sequence[str] = (),
+               super_at: int = 0, abstract: bool = False, impl: bool = False, ident: bool = True, first_literal: int = 0, tag: str = "") -> mm.Class:
+    """A class with one property ``<letter>_<kind>`` per entry of ``kinds``, ASSIGNED in that order and DECLARED in the order
+    ``decl`` (indices into ``kinds``; default: the same); ``forms``: ``isnot`` | ``is`` | ``mixed`` (alternating)."""
+    names = [f"{tag}{'abcdefgh'[j]}_{k.lower()}" for j, k in enumerate(kinds)]  # (``tag``: distinct names along a hierarchy)
+    spec: Dict[str, Any] = {"order": list(names), "stmt": {}, "sig": {}}
+    if super_at:
+        spec["super_at"] = super_at
+    props: Dict[str, mm.Prop] = {}
+    for j, (k, n) in enumerate(zip(kinds, names)):
+        t, where, d = CTOR_KINDS[k]
+        props[n] = mm.Prop(n, t)
+        if where == "stmt":
+            dd = list(d)
+            if dd[0] == "enum":
+                dd[2] = CTOR_LITERALS[(first_literal + j) % 3]
+            spec["stmt"][n] = {"d": dd, "form": forms if forms != "mixed" else ("is" if j % 2 else "isnot")}
+        elif where == "sig":
+            spec["sig"][n] = W.jsonable(d)
+    own = [props[names[j]] for j in (decl if decl is not None else range(len(kinds)))]
+    c = mm.Class(name, bases=list(bases), abstract=abstract, props=([mm.Prop("ident", P("int"))] if ident and not bases else []) + own,
+                 with_model_type=True if not bases else None, description="Represent defaults.", impl_specific=impl)
+    return with_cspec(c, spec)
+
+
+def ctor_model() -> Tuple[mm.MM, Dict[str, Any]]:
+    """Constructors with default values of every kind the front end accepts, in every order and combination (one model)."""
+    classes = [mm.Class("Leaf", props=[mm.Prop("ident", P("int")), mm.Prop("label", O(P("str")))], with_model_type=True, description="Represent a leaf.")]
+    # every ORDERED pair of kinds (the same kind twice too); the declaration order is the reverse for every second class
+    pair_kinds = ["N", "Lc", "Ls", "E", "Pi", "S"]
+    for i, k1 in enumerate(pair_kinds):
+        for j, k2 in enumerate(pair_kinds):
+            classes.append(ctor_class(f"Pair_{k1}_{k2}", [k1, k2], decl=[1, 0] if (i + j) % 2 else None, forms="mixed" if (i * 6 + j) % 3 == 0 else "isnot",
+                                      first_literal=i + j))
+    # every order of three statement defaults
+    import itertools
+
+    for perm in itertools.permutations(["Lc", "E", "Ls"]):
+        classes.append(ctor_class("Triple_" + "_".join(perm), list(perm), decl=[2, 0, 1]))
+    # longer constructors: every kind at several positions, repeated kinds, both syntactic forms
+    for n, (kinds, forms) in enumerate([
+        (["E", "Ll", "Pf", "Lr", "N"], "isnot"), (["Lr", "Ps", "E", "Lc", "Pb"], "is"), (["Ls", "N", "E", "E", "Ll"], "mixed"),
+        (["S", "E", "Le", "Pi", "Ls"], "is"), (["Pb", "Lc", "Lc", "E", "S"], "isnot"), (["E", "Pf", "Ps", "Ls", "Lr"], "mixed"),
+        (["N", "N", "E", "Ll", "Lc"], "isnot"), (["Lc", "E", "Ls", "E", "Le", "E"], "mixed"),
+    ]):
+        classes.append(ctor_class(f"Long_{n}", kinds, decl=list(reversed(range(len(kinds)))) if n % 2 else None, forms=forms, first_literal=n))
+    # defaults split between the constructors of a hierarchy; the super call before / between / after the assignments
+    classes += [
+        ctor_class("Base_d", tag="ba", kinds=["E", "Lc"], abstract=True),
+        ctor_class("Child_a", tag="ca", kinds=["Ls", "E"], bases=["Base_d"], first_literal=2),
+        ctor_class("Child_b", tag="cb", kinds=["E", "Lc"], bases=["Base_d"], super_at=1, first_literal=1),
+        ctor_class("Child_c", tag="cc", kinds=["Lc", "E", "N"], bases=["Base_d"], super_at=3),
+        ctor_class("Grand_a", tag="ga", kinds=["Lc"], bases=["Child_a"], super_at=1),
+        ctor_class("Parent_s", tag="ps", kinds=["Pi", "S", "Lc"]),
+        ctor_class("Kid_s", tag="ks", kinds=["E", "Ls"], bases=["Parent_s"], super_at=2),
+        ctor_class("Left_d", tag="le", kinds=["Lc"], abstract=True),
+        ctor_class("Right_d", tag="ri", kinds=["E"], abstract=True, ident=False, first_literal=1),
+        ctor_class("Both_d", tag="bo", kinds=["Ls", "E"], bases=["Left_d", "Right_d"], super_at=1),
+        # a hand-written class with defaults and a generated class below it, and the other way round
+        ctor_class("Hand_d", tag="hd", kinds=["E", "Lc", "Pi"], impl=True),
+        ctor_class("Hand_kid", tag="hk", kinds=["Ls", "E"], bases=["Hand_d"], first_literal=2),
+        ctor_class("Hand_below", tag="hb", kinds=["E", "Lc"], bases=["Parent_s"], impl=True, super_at=1),
+    ]
+    # the classes above as nested instances
+    classes.append(mm.Class("Bag", props=[mm.Prop("ident", P("int")), mm.Prop("things", L(R("Base_d"))), mm.Prop("one", O(R("Long_0"))),
+                                          mm.Prop("hand", O(R("Hand_d"))), mm.Prop("parents", O(L(R("Parent_s"))))],
+                            with_model_type=True, description="Represent a bag."))
+    m = mm.MM(classes=classes, enums=[mm.Enum.of("Color", [("Red", "RED"), ("Green", "green"), ("Blue", "blue")], description="Represent colors.")])
+    return m, {}
+
+
+def ctor_states(n: int) -> List[Tuple[str, ...]]:
+    """Which of ``n`` defaulted arguments are passed (P), left out (O), passed as None (N): everything for n <= 2, a covering slice above."""
+    import itertools
+
+    if n <= 1:
+        return list(itertools.product("PON", repeat=n))
+    if n == 2:
+        return [st for st in itertools.product("PON", repeat=2) if st not in (("P", "N"), ("N", "P"))]
+    out = [tuple("P" * n), tuple("O" * n), tuple("N" * n), tuple("ON"[i % 2] for i in range(n))]
+    for j in range(n):
+        out.append(tuple("O" if i == j else "P" for i in range(n)))
+    if n == 3:
+        out += list(itertools.product("PO", repeat=3))
+    else:
+        out += [tuple("P" if i == j else "O" for i in range(n)) for j in (0, n - 1)]
+    seen: List[Tuple[str, ...]] = []
+    for st in out:
+        if st not in seen:
+            seen.append(st)
+    return seen
+
+
+def ctor_trees(b: Builder, cname: str) -> List[Inst]:
+    """Instances of a class for ``ctor_states`` of its defaulted arguments (own and inherited)."""
+    m = b.mm
+    props = mm.all_props(m, cname)
+    slots = [k for k, (p, o) in enumerate(props) if p.name != "ident" and (declared_default(m, o, p.name) is not None or mm.is_optional(p.type))]
+    out = []
+    for states in ctor_states(len(slots)):
+        b.counter += 1
+        inst = Inst(cname, [None] * len(props))
+        for k, (p, o) in enumerate(props):
+            d = declared_default(m, o, p.name)
+            state = states[slots.index(k)] if k in slots else "P"
+            if state == "N" and not mm.is_optional(p.type):
+                state = "O" if d is not None and d[0] == "sig" else "P"  # a required argument cannot be None
+            if state == "O" and not (mm.is_optional(p.type) or (d is not None and d[0] == "sig")):
+                state = "P"  # (a required argument with a `[]` statement but no default in the signature)
+            if p.name == "ident":
+                inst.fields[k] = b.counter
+            elif state == "P":
+                inst.fields[k] = b.present(p.type, avoid=None if d is None else d[1])
+            else:
+                inst.fields[k] = None if d is None else d[1]
+                (inst.omit if state == "O" else inst.nones).append(k)
+        out.append(inst)
+    return out
+
+
+def enumerated_ctor_trees() -> Iterator[Tuple[mm.MM, Dict[str, Any], List[Inst], str]]:
+    rng = random.Random(20296)
+    m, defaults = ctor_model()
+    b = Builder(m, rng)
+    trees: List[Inst] = []
+    for c in m.classes:
+        if not c.abstract and c.name not in ("Leaf", "Bag"):
+            trees += ctor_trees(b, c.name)
+    by_class: Dict[str, List[Inst]] = {}
+    for t in trees:
+        by_class.setdefault(t.cls, []).append(t)
+    for k in range(4):
+        b.counter += 1
+        things = [copy.deepcopy(by_class[n][(k * 3 + j) % len(by_class[n])]) for j, n in enumerate(["Child_a", "Child_b", "Child_c", "Grand_a"])]
+        trees.append(Inst("Bag", [b.counter, things, copy.deepcopy(by_class["Long_0"][k]), copy.deepcopy(by_class["Hand_d"][k + 1]),
+                                  [copy.deepcopy(by_class[n][k + 2]) for n in ("Parent_s", "Kid_s", "Hand_below")]]))
+    yield m, defaults, trees, "enumerated:ctor"
+    # the literal / property names of the defaults in other name shapes
+    slim = [t for k, t in enumerate(trees) if k % 4 == 0 or t.cls == "Bag"]
+    yield rename_model(m, defaults, slim, type_shape=rotating(5), prop_shape=lambda owner, n, o=rotating(2): o(owner, n), lit_shape=rotating(1)) + ("enumerated:ctor:names",)
+
+
+# ---- implementation-specific classes at every position (added after the seeded change C29-5)
+
+IMPL_VARIANTS = [
+    ("leaf", ["Leaf"]),                                              # a concrete leaf: property type and list item of every holder
+    ("parents", ["Parcel", "Leaf"]),                                 # a concrete class with a generated descendant (an abstract class can not be implementation-specific)
+    # below generated classes (abstract / concrete parent, inherited accessors); holders of generated classes
+    ("children+holders", ["Circle", "Chest", "Plain_defaults", "Holder_c", "Holder_oc", "Holder_lc", "Holder_olc", "Holder_la", "Holder_ola", "Holder_llc",
+                          "Holder_ollc", "Holder_lk", "Holder_ok", "Holder_oen"]),
+    ("all", None),                                                   # every concrete class is hand-written: only the visitors / transformers are generated
+]
+
+
+def enumerated_impl_trees() -> Iterator[Tuple[mm.MM, Dict[str, Any], List[Inst], str]]:
+    """The shapes model with hand-written (implementation-specific) classes at every position of the hierarchy / containment."""
+    rng = random.Random(20295)
+    for variant, names in IMPL_VARIANTS:
+        m, defaults = shapes_model()
+        for c in m.classes:
+            if (names is None or c.name in names) and not c.abstract:
+                c.impl_specific = True
+        b = Builder(m, rng)
+        trees: List[Inst] = []
+        for c in m.classes:
+            if not c.name.startswith("Holder_"):
+                continue
+            held = c.props[2].type
+            # only the holders that HOLD or ARE a hand-written class (the others are the plain enumerated stream again)
+            refs = {x.name for x in _refs(held)}
+            touched = c.impl_specific or any(m.cls(r).impl_specific or any(m.cls(d).impl_specific for d in mm.descendants(m, r))
+                                             for r in refs if isinstance(m.find(r), mm.Class))
+            if not touched:
+                continue
+            vals = enumerated_values(b, held)
+            for v in ([vals[0], vals[-1]] if len(vals) > 1 else vals):
+                b.counter += 1
+                trees.append(Inst(c.name, [b.counter, b.instance("Leaf", 0), v, b.instance("Leaf", 0)]))
+        for cls in ("Plain_defaults", "More_defaults"):
+            for mask in (0, 6, 9, 15):
+                b.counter += 1
+                vals = [EnumVal("Color", "Red") if mask & 1 else None, 0 if mask & 2 else None, "" if mask & 4 else None, True if mask & 8 else None]
+                trees.append(Inst(cls, [b.counter] + vals + ([None if mask & 1 else 0.0] if cls == "More_defaults" else [])))
+        yield m, defaults, trees, "enumerated:impl:" + variant
+
+
+def _refs(t: Any) -> List[Any]:
+    if isinstance(t, mm.Ref):
+        return [t]
+    if isinstance(t, (mm.ListOf, mm.OptionalOf)):
+        return _refs(t.item)
+    return []
+
+
+# ---- histories: several meta-models generated one after the other in ONE process (added after the seeded change C29-4)
+#
+# The SDK generated for a model must not depend on what the process generated before.  The models of a history RE-USE names
+# (and so the texts of type annotations: ``Item``, ``List[Item]``, ``Optional[List[Item]]`` …) for different kinds of things.
+
+HISTORY_KINDS = ["cprim", "leaf", "enum", "deep", "impl", "abstract"]
+
+
+def history_entity(name: str, kind: str, part: str) -> Tuple[List[mm.Class], List[mm.Enum], List[mm.ConstrainedPrimitive]]:
+    """What the name ``name`` is in one model of a history."""
+    ident = mm.Prop("ident", P("int"))
+    if kind == "enum":
+        return [], [mm.Enum.of(name, [("First", "first"), ("Second", "SECOND")], description="Represent an enumeration.")], []
+    if kind == "cprim":
+        return [], [], [mm.ConstrainedPrimitive(name, "str", description="Represent a constrained primitive.")]
+    if kind == "leaf":
+        return [mm.Class(name, props=[ident, mm.Prop("name", O(P("str")))], with_model_type=True, description="Represent a leaf.")], [], []
+    if kind == "deep":
+        return [mm.Class(name, props=[ident, mm.Prop("next_one", O(R(name))), mm.Prop("parts", L(R(part)))], with_model_type=True,
+                         description="Represent a deep class.")], [], []
+    if kind == "impl":
+        return [mm.Class(name, props=[ident, mm.Prop("part", O(R(part)))], with_model_type=True, impl_specific=True, description="Represent a hand-written class.")], [], []
+    assert kind == "abstract", kind
+    return [
+        mm.Class(name, abstract=True, props=[ident], with_model_type=True, description="Represent an abstract class."),
+        mm.Class(name + "_a", bases=[name], props=[mm.Prop("part", O(R(part)))], description="Represent the first descendant."),
+        mm.Class(name + "_b", bases=[name], props=[mm.Prop("inner", O(L(R(name))))], description="Represent the second descendant."),
+    ], [], []
+
+
+def history_model(k: int) -> Tuple[mm.MM, Dict[str, Any]]:
+    """Model ``k`` of the history family: ``Item`` is ``HISTORY_KINDS[k]``, ``Tag`` is three kinds further; the holders have the
+    same property names in every model (in a rotated order) so that every annotation text is re-used with another meaning."""
+    n = len(HISTORY_KINDS)
+    k %= n
+    item_kind, tag_kind = HISTORY_KINDS[k], HISTORY_KINDS[(k + 3) % n]
+    classes = [mm.Class("Part", props=[mm.Prop("ident", P("int")), mm.Prop("remark", O(P("str")))], with_model_type=True, description="Represent a part.")]
+    enums: List[mm.Enum] = []
+    cps: List[mm.ConstrainedPrimitive] = []
+    for name, kind in (("Item", item_kind), ("Tag", tag_kind)):
+        c, e, cp = history_entity(name, kind, "Part")
+        classes += c
+        enums += e
+        cps += cp
+    held = [mm.Prop("items", L(R("Item"))), mm.Prop("item", O(R("Item"))), mm.Prop("more_items", O(L(R("Item")))), mm.Prop("one", R("Item")),
+            mm.Prop("grid", L(L(R("Item")))), mm.Prop("parts", L(R("Part"))), mm.Prop("tags", O(L(R("Tag")))), mm.Prop("tag", O(R("Tag")))]
+    held = held[k:] + held[:k]
+    classes.append(mm.Class("Holder", props=[mm.Prop("ident", P("int"))] + held, with_model_type=True, description="Represent a holder."))
+    shelf = [mm.Prop("holder", R("Holder")), mm.Prop("spare", O(R("Item"))), mm.Prop("holders", O(L(R("Holder")))), mm.Prop("label", O(R("Tag")))]
+    shelf = shelf[k % 4:] + shelf[:k % 4]
+    classes.append(mm.Class("Shelf", props=[mm.Prop("ident", P("int"))] + shelf, with_model_type=True, description="Represent a shelf."))
+    return mm.MM(classes=classes, enums=enums, constrained_primitives=cps), {}
+
+
+def full_instance(b: Builder, cls: str, depth: int) -> Inst:
+    """Every optional property set, every list with two members (down to ``depth``)."""
+    def val(t: Any, d: int) -> Any:
+        if isinstance(t, mm.OptionalOf):
+            return val(t.item, d) if d > 0 else None
+        if isinstance(t, mm.ListOf):
+            return [val(t.item, d), val(t.item, d)] if d > 0 else []
+        if isinstance(t, mm.Ref) and isinstance(b.mm.find(t.name), mm.Class):
+            cands = [c for c in b.concrete_of(t.name) if b.req[c] < 10**6]
+            b.counter += 1
+            return full_instance(b, cands[b.counter % len(cands)], d - 1)
+        return b.value(t, 1)
+
+    b.counter += 1
+    ident = b.counter
+    return Inst(cls, [ident if (p.name == "ident" and p.type == P("int")) else val(p.type, depth) for p, _o in mm.all_props(b.mm, cls)])
+
+
+def history_trees(m: mm.MM, rng: random.Random) -> List[Inst]:
+    b = Builder(m, rng)
+    trees = [full_instance(b, "Shelf", 3), full_instance(b, "Holder", 2), full_instance(b, "Holder", 1)]
+    trees += [b.instance("Shelf", 4), b.instance("Holder", 3), b.instance("Holder", 2)]
+    for c in m.classes:
+        if c.name.startswith(("Item", "Tag")) and not c.abstract:
+            trees.append(full_instance(b, c.name, 2))
+    return trees
+
+
+def enumerated_histories(quick: bool) -> List[List[int]]:
+    """Histories over the family (indices into ``HISTORY_KINDS``): every model first (= generated ALONE) and every other model
+    somewhere after it, in both directions — each ordered pair (earlier, later) occurs, each model directly after its two
+    neighbours.  The thorough tier adds every ordered pair as a history of its own."""
+    n = len(HISTORY_KINDS)
+    out = [[(i + j) % n for j in range(n)] for i in range(n)] + [[(i - j) % n for j in range(n)] for i in range(n)]
+    if not quick:
+        out += [[i, j] for i in range(n) for j in range(n) if i != j] + [[i, j, i] for i in range(n) for j in range(n) if i < j]
+    return out
+
+
+def colliding_history(rng: random.Random, length: int) -> List[Tuple[mm.MM, Dict[str, Any], List[Inst]]]:
+    """Random focused models whose type names are re-used across the models for OTHER kinds: a class of one model carries the
+    name of the enumeration / a constrained primitive of its predecessor and the other way round."""
+    out: List[Tuple[mm.MM, Dict[str, Any], List[Inst]]] = []
+    prev_classes: List[str] = []
+    for _ in range(length):
+        m, defaults = random_model(rng)
+        b = Builder(m, rng)
+        concrete = [c.name for c in m.classes if not c.abstract]
+        trees = [t for t in (b.instance(rng.choice(concrete), rng.choice([2, 3, 3, 4])) for _ in range(8)) if len(W.walk_insts(t)) <= 60]
+        own = [c.name for c in m.classes]
+        free = [n for n in prev_classes if n not in own and n not in ("Hue", "Code", "Count")]
+        rng.shuffle(free)
+        tmap: Dict[str, str] = {}
+        for cname, other in zip(rng.sample(own, min(len(own), 3)), ["Hue", "Code", "Count"]):
+            if free and rng.random() < 0.8:
+                tmap[cname], tmap[other] = other, free.pop()  # the class takes the enumeration's / primitive's name; that one a class name of before
+        if tmap:
+            m, defaults, trees = apply_renaming(m, defaults, trees, tmap, {}, {})
+        prev_classes = [c.name for c in m.classes]
+        out.append((m, defaults, trees))
+    return out
+
+
 # ---- name shapes (added after the seeded change C29-3)
 #
 # The generated code must use the PYTHON name of a property / class / literal everywhere, whatever the shape of the
@@ -968,6 +1810,16 @@ def rename_model(m: mm.MM, defaults: Dict[str, Any], trees: Sequence[Inst], type
     tmap = {x.name: shape_name(x.name, type_shape(x.name), "type") for x in list(m.classes) + list(m.enums) + list(m.constrained_primitives)}
     pmap = {(c.name, p.name): (p.name if p.name == "ident" else shape_name(p.name, prop_shape(c.name, p.name), "prop")) for c in m.classes for p in c.props}
     lmap = {(e.name, li.name): shape_name(li.name, lit_shape(e.name, li.name), "literal") for e in m.enums for li in e.literals}
+    return apply_renaming(m, defaults, trees, tmap, pmap, lmap)
+
+
+def apply_renaming(m: mm.MM, defaults: Dict[str, Any], trees: Sequence[Inst], tmap: Dict[str, str], pmap: Dict[Tuple[str, str], str],
+                   lmap: Dict[Tuple[str, str], str]) -> Tuple[mm.MM, Dict[str, Any], List[Inst]]:
+    """A copy of (model, defaults, trees) renamed by explicit maps: type name, (class, own property), (enumeration, literal);
+    names that are not in a map stay."""
+    tmap = {**{x.name: x.name for x in list(m.classes) + list(m.enums) + list(m.constrained_primitives)}, **tmap}
+    pmap = {**{(c.name, p.name): p.name for c in m.classes for p in c.props}, **pmap}
+    lmap = {**{(e.name, li.name): li.name for e in m.enums for li in e.literals}, **lmap}
 
     def ty(t: Any) -> Any:
         if isinstance(t, mm.Ref):
@@ -980,7 +1832,7 @@ def rename_model(m: mm.MM, defaults: Dict[str, Any], trees: Sequence[Inst], type
 
     def val(v: Any) -> Any:
         if isinstance(v, Inst):
-            return Inst(tmap[v.cls], [val(x) for x in v.fields])
+            return Inst(tmap[v.cls], [val(x) for x in v.fields], omit=list(v.omit), nones=list(v.nones))
         if isinstance(v, list):
             return [val(x) for x in v]
         if isinstance(v, EnumVal):
@@ -992,13 +1844,27 @@ def rename_model(m: mm.MM, defaults: Dict[str, Any], trees: Sequence[Inst], type
         owner = next(o for p, o in mm.all_props(m, cname) if p.name == pname)
         return pmap[(owner, pname)] + "_or_default"
 
+    def spec(c: mm.Class) -> Optional[Dict[str, Any]]:
+        sp = cspec_of(c)
+        if not sp:
+            return None
+        new: Dict[str, Any] = {k: v for k, v in sp.items() if k not in ("order", "stmt", "sig")}
+        if "order" in sp:
+            new["order"] = [pmap[(c.name, n)] for n in sp["order"]]
+        if "stmt" in sp:
+            new["stmt"] = {pmap[(c.name, n)]: {**st, "d": st["d"] if st["d"][0] == "list" else ["enum", tmap[st["d"][1]], lmap[(st["d"][1], st["d"][2])]]}
+                           for n, st in sp["stmt"].items()}
+        if "sig" in sp:
+            new["sig"] = {pmap[(c.name, n)]: W.jsonable(val(W.from_jsonable(v))) for n, v in sp["sig"].items()}
+        return new
+
     out = mm.MM(order=[tmap.get(n, n) for n in m.order] if m.order is not None else None)
     for c in m.classes:
-        out.classes.append(mm.Class(
+        out.classes.append(with_cspec(mm.Class(
             tmap[c.name], bases=[tmap[b] for b in c.bases], abstract=c.abstract, with_model_type=c.with_model_type,
             props=[mm.Prop(pmap[(c.name, p.name)], ty(p.type)) for p in c.props],
             methods=[mm.Method(method(c.name, me.name), returns=ty(me.returns), impl_specific=True) for me in c.methods],
-            description=_descr(tmap[c.name])))
+            description=_descr(tmap[c.name]), impl_specific=c.impl_specific), spec(c)))
     out.enums = [mm.Enum.of(tmap[e.name], [(lmap[(e.name, li.name)], li.value) for li in e.literals], description="Represent an enumeration.") for e in m.enums]
     out.constrained_primitives = [
         mm.ConstrainedPrimitive(tmap[cp.name], cp.base, [tmap[b] for b in cp.bases], description="Represent a constrained primitive.")
@@ -1013,7 +1879,7 @@ def rename_model(m: mm.MM, defaults: Dict[str, Any], trees: Sequence[Inst], type
     def tree(v: Any) -> Any:
         if isinstance(v, Inst):
             if id(v) not in memo:
-                memo[id(v)] = Inst(tmap[v.cls], [])
+                memo[id(v)] = Inst(tmap[v.cls], [], omit=list(v.omit), nones=list(v.nones))
                 memo[id(v)].fields = [tree(x) for x in v.fields]
             return memo[id(v)]
         if isinstance(v, list):
@@ -1228,13 +2094,44 @@ def platform_model(rng: random.Random) -> Tuple[mm.MM, Dict[str, Any]]:
 # =========================================================================== run
 
 
+def main_types_text(sdk: Sdk) -> Tuple[Optional[str], str]:
+    """``types.py`` as ``main.execute`` writes it for the model of ``sdk`` (with the snippets of ``sdk`` + dummies for the other
+    modules of the package); ``(None, reason)`` if the run fails (crashes of the other generators are not this property's)."""
+    used = mm.snippets_for("python", sdk.symbol_table, module_name="aasv_c29")
+    used.update(sdk.snippets())
+    out = mm.new_scratch("c29main")
+    res = mm.generate("python", sdk.source, out, snippets=used)
+    path = out / "aasv_c29" / "types.py"
+    if res.exception or res.rc != 0 or not path.exists():
+        return None, (res.exception or (res.stderr or "")[:60].replace("\n", " "))
+    return path.read_text(encoding="utf-8"), ""
+
+
+def tree_key(v: Any) -> str:
+    """Wire form of a tree + which constructor arguments were left out."""
+    return W.val_wire(v) + "|" + ";".join(f"{k}:{a.omit}:{a.nones}" for k, a in enumerate(W.walk_insts(v)) if a.omit or a.nones)
+
+
 def run_model(ctx: Ctx, m: mm.MM, defaults: Dict[str, Any], trees: Sequence[Inst], stream: str, with_model: bool, check_main: bool = False,
-              sdk: Optional[Sdk] = None, twin_ok: bool = False) -> bool:
-    """``twin_ok``: the same model with plain names was usable in this run (the enumerated name-shape models).  Returns
-    whether the generated module could be used."""
+              sdk: Optional[Sdk] = None, twin_ok: bool = False, extra_input: Optional[Dict[str, Any]] = None, model_every: int = 1) -> bool:
+    """``twin_ok``: the model is one of the enumerated ones, valid by construction (an accepted enumerated model whose module
+    cannot be executed is a failure).  Returns whether the generated module could be used.  ``extra_input``: recorded with
+    every input (the history of a generation).  ``model_every``: only every n-th tree also goes to the Lean model (the direct
+    oracle judges every tree)."""
+    t0 = time.time()
+    try:
+        return _run_model(ctx, m, defaults, trees, stream, with_model, check_main, sdk, twin_ok, extra_input, model_every)
+    finally:
+        secs = ctx.extra_cov.setdefault("stream_seconds", {})
+        secs[stream] = round(secs.get(stream, 0.0) + time.time() - t0, 1)
+
+
+def _run_model(ctx: Ctx, m: mm.MM, defaults: Dict[str, Any], trees: Sequence[Inst], stream: str, with_model: bool, check_main: bool,
+               sdk: Optional[Sdk], twin_ok: bool, extra_input: Optional[Dict[str, Any]], model_every: int) -> bool:
     if sdk is None:
         sdk = Sdk(m, defaults).build()
     mj = mm_to_json(m, defaults) if sdk.spec is None else {"fixture": stream}
+    base_inp = dict(extra_input or {})
     if not sdk.ok:
         # a rejected / crashing model is not in the quantifier of C29 (crashes of the generators are C02's)
         ctx.hit("model:" + ("crash:" + sdk.crash if sdk.crash else "rejected"))
@@ -1245,19 +2142,28 @@ def run_model(ctx: Ctx, m: mm.MM, defaults: Dict[str, Any], trees: Sequence[Inst
             # … except that the generated module of an ACCEPTED model (front end + verify_for_types passed, the code was
             # generated) cannot even be executed although the same model with plain names works: no instance can be
             # built, so nothing is ever yielded / dispatched
-            ctx.fail({"mm": mj}, f"the generated types module of an accepted meta-model cannot be executed ({sdk.crash}); with plain names it can",
+            ctx.fail({**base_inp, "mm": mj}, f"the generated types module of an accepted meta-model cannot be executed ({sdk.crash}): no instance can be built",
                      "C29:module-unusable:" + sdk.crash)
         return False
     ctx.hit("model:accepted")
     # the property order the front end hands to the generator must be the one of the abstract model
     for c in m.classes:
-        real = [str(p.name) for p in sdk.symbol_table.must_find_class(_ident(c.name)).properties]
+        real = (sdk.front_order or {}).get(c.name)
         if real != [p.name for p, _ in mm.all_props(m, c.name)]:
             ctx.note(f"{stream}: property order of {c.name} differs between the front end {real} and the abstract model; model skipped")
             ctx.hit("model:order-mismatch")
             return False
-    if check_main and (has_nested_list(m) or any(c.methods for c in m.classes)):
-        ctx.hit("main:skipped (nested lists crash the jsonization generator / snippets)")
+    snippet_model = any(c.methods or c.impl_specific for c in m.classes)
+    if check_main and (has_nested_list(m) or sdk.symbol_table is None):
+        ctx.hit("main:skipped (nested lists crash the jsonization generator)")
+    elif check_main and snippet_model:
+        text, why = main_types_text(sdk)
+        if text is None:
+            ctx.hit("main:not-comparable:" + why)
+        else:
+            if text != sdk.code:
+                ctx.disagree("main", {**base_inp, "mm": mj}, "types.py written by main.execute differs from generate_types", "same text")
+            ctx.hit("main:compared:snippets")
     elif check_main:
         full = mm.load_python_sdk(sdk.source)
         try:
@@ -1265,18 +2171,27 @@ def run_model(ctx: Ctx, m: mm.MM, defaults: Dict[str, Any], trees: Sequence[Inst
                 text = (full.package_dir / "types.py").read_text(encoding="utf-8")  # type: ignore[operator]
                 a = text.replace(full.module_name, "aasv_c29")
                 if a != sdk.code:
-                    ctx.disagree("main", {"mm": mj}, "types.py written by main.execute differs from generate_types", "same text")
+                    ctx.disagree("main", {**base_inp, "mm": mj}, "types.py written by main.execute differs from generate_types", "same text")
                 ctx.hit("main:compared")
             else:
                 ctx.hit("main:not-comparable:" + (full.error or "")[:60].replace("\n", " "))
         finally:
             full.close()
+    for c in m.classes:
+        if c.impl_specific:
+            ctx.hit("class:impl-specific:" + ("abstract" if c.abstract else ("with-descendants" if mm.descendants(m, c.name) else "leaf")))
+        if cspec_of(c):
+            ctx.hit("class:ctor-defaults")
+    judge_module(sdk, {**base_inp, "mm": mj}, ctx)
     batch: List[Any] = []
     mmw = W.enc_mm(m)
     if with_model:
-        correspond_bodies(sdk, {"mm": mj}, ctx, batch)
+        correspond_bodies(sdk, {**base_inp, "mm": mj}, ctx, batch)
+        if sdk.spec is None:
+            correspond_ctors(sdk, {**base_inp, "mm": mj}, ctx, batch)
+        correspond_visitors(sdk, mmw, {**base_inp, "mm": mj}, ctx, batch)
     for k, root in enumerate(trees):
-        inp = {"mm": mj, "instance": W.jsonable(root)}
+        inp = {**base_inp, "mm": mj, "instance": W.jsonable(root)}
         try:
             sdk.realise(root)
         except BaseException as e:  # noqa: B902
@@ -1285,12 +2200,12 @@ def run_model(ctx: Ctx, m: mm.MM, defaults: Dict[str, Any], trees: Sequence[Inst
             ctx.fail(inp, f"the generated constructor raised {crash_name(e)}: {e}", "C29:constructor:" + crash_name(e))
             continue
         n_inst = len(W.walk_insts(root))
-        ctx.count(("tree", W.val_wire(root), mmw), nontrivial=n_inst > 1, stream=stream)
+        ctx.count(("tree", tree_key(root), mmw), nontrivial=n_inst > 1, stream=stream)
         ctx.hit("tree:single" if n_inst == 1 else ("tree:small" if n_inst <= 5 else "tree:large"))
         if k % 97 == 0:
             ctx.sample({"stream": stream, "class": root.cls, "instances": n_inst, "descend": _names(sdk, run_list(root.obj.descend))})
         judge(sdk, root, inp, ctx)
-        if with_model:
+        if with_model and k % model_every == 0:
             correspond_tree(sdk, mmw, root, inp, ctx, batch)
             if len(batch) > 4000:
                 flush(ctx, batch)
@@ -1321,21 +2236,136 @@ def shared_variants(b: Builder, root: Inst, rng: random.Random) -> Optional[Inst
     return None
 
 
+class Histories:
+    """The history stream: jobs are handed to the fresh-process pool early (``submit_*``) and judged late (``collect``)."""
+
+    def __init__(self, ctx: Ctx, with_model: bool) -> None:
+        from harness import c29_fresh
+
+        self.ctx = ctx
+        self.with_model = with_model
+        self.pool = c29_fresh.Pool()
+        #: (ticket, [(model, defaults, trees)], stream)
+        self.jobs: List[Tuple[int, List[Tuple[mm.MM, Dict[str, Any], List[Inst]]], str]] = []
+        #: source text of a model -> what a process WITHOUT history generated for it
+        self.alone: Dict[str, Dict[str, Any]] = {}
+        self.judged: set = set()
+        self._jobs: Dict[int, Any] = {}
+
+    def job_of(self, m: mm.MM, d: Dict[str, Any]) -> Dict[str, Any]:
+        if id(m) not in self._jobs:
+            self._jobs[id(m)] = (m, Sdk(m, d).job())
+        return self._jobs[id(m)][1]
+
+    def submit(self, models: List[Tuple[mm.MM, Dict[str, Any], List[Inst]]], stream: str) -> None:
+        self.jobs.append((self.pool.submit([self.job_of(m, d) for m, d, _t in models]), models, stream))
+
+    def submit_enumerated(self) -> None:
+        rng = random.Random(20294)
+        family = []
+        for k in range(len(HISTORY_KINDS)):
+            m, d = history_model(k)
+            family.append((m, d, history_trees(m, rng)))
+        for h in enumerated_histories(self.ctx.tier != "thorough"):
+            self.submit([family[k] for k in h], "history")
+
+    def submit_random(self, n: int) -> None:
+        for _ in range(n):
+            models = colliding_history(self.ctx.rng, self.ctx.rng.choice([2, 3, 3]))
+            # every rotation: each model is generated alone once and after each of the others
+            for r in range(len(models)):
+                self.submit(models[r:] + models[:r], "history:random")
+
+    def collect(self) -> None:
+        ctx = self.ctx
+        # a model that no history starts with is generated alone in a job of its own
+        first = {self.job_of(models[0][0], models[0][1])["source"] for _t, models, _s in self.jobs}
+        for _t, models, stream in list(self.jobs):
+            for m, d, _trees in models[1:]:
+                if self.job_of(m, d)["source"] not in first:
+                    first.add(self.job_of(m, d)["source"])
+                    self.submit([(m, d, [])], stream)
+        results = [(self.pool.result(t), models, stream) for t, models, stream in self.jobs]
+        for res, models, _stream in results:
+            self.alone.setdefault(self.job_of(models[0][0], models[0][1])["source"], res[0])
+        for res, models, stream in results:
+            jsons = [mm_to_json(m, d) for m, d, _t in models]
+            for j, ((m, d, trees), r) in enumerate(zip(models, res)):
+                sdk = Sdk(m, d, source=self.job_of(m, d)["source"])
+                alone = self.alone.get(sdk.source)
+                hist = {"history": jsons[:j]} if j else {}
+                inp = {**hist, "mm": jsons[j]}
+                ctx.hit("history:position:" + ("alone" if j == 0 else ("second" if j == 1 else "later")))
+                if alone is None:
+                    ctx.note(f"{stream}: no generation without history for a model; not compared")
+                elif "code" in alone and "code" not in r:
+                    # an accepted model for which the generator writes an SDK when it runs alone gets NO SDK after this history
+                    what = r.get("crash") or "rejected"
+                    ctx.hit("history:unusable-after-history")
+                    ctx.fail(inp, f"generate_types gives no SDK ({what}: {(r.get('error') or '')[:200]}) for a meta-model after {j} other generation(s) in the same process; "
+                                  "alone in a fresh process it generates the SDK", "C29:history:unusable:" + what)
+                    continue
+                elif ("code" in alone) != ("code" in r) or alone.get("code") != r.get("code"):
+                    ctx.hit("history:text-differs")
+                    ctx.disagree("history", inp, "types.py generated after the history differs from the one generated alone in a fresh process", "same text")
+                else:
+                    ctx.hit("history:text-same")
+                ctx.traces_validated += 1
+                key = (sdk.source, r.get("code"))
+                if key in self.judged:
+                    continue  # the same text for the same model has been exercised
+                self.judged.add(key)
+                run_model(ctx, m, d, copy.deepcopy(trees), stream, self.with_model, sdk=sdk.adopt_result(r), extra_input=hist)
+
+    def close(self) -> None:
+        self.pool.close()
+
+
 def _run(ctx: Ctx, with_model: bool) -> None:
+    histories = Histories(ctx, with_model)
+    try:
+        # histories: generated in fresh processes while the other streams run here
+        for c in corpus(ID):
+            if c.get("history"):  # a recorded history: the models before, then the model with its instance tree
+                m, defaults = mm_from_json(c["mm"])
+                histories.submit([mm_from_json(h) + ([],) for h in c["history"]] + [(m, defaults, [W.from_jsonable(c["instance"])] if "instance" in c else [])],
+                                 "corpus:history")
+        histories.submit_enumerated()
+        histories.submit_random(ctx.n(1, 25))
+        _run_streams(ctx, with_model)
+        t0 = time.time()
+        histories.collect()
+        ctx.extra_cov.setdefault("stream_seconds", {})["history:wait+judge"] = round(time.time() - t0, 1)
+    finally:
+        histories.close()
+
+
+def _run_streams(ctx: Ctx, with_model: bool) -> None:
     # corpus
     for c in corpus(ID):
+        if c.get("history"):
+            continue  # (generated in a fresh process: ``Histories``)
         m, defaults = mm_from_json(c["mm"])
         run_model(ctx, m, defaults, [W.from_jsonable(c["instance"])] if "instance" in c else [], "corpus", with_model)
     # enumerated, seed independent
     plain_ok = True
     for m, defaults, trees, stream in enumerated_trees():
         plain_ok = run_model(ctx, m, defaults, trees, stream, with_model, check_main=False) and plain_ok
+    # enumerated, seed independent: hand-written (implementation-specific) classes at every position
+    for k, (m, defaults, trees, stream) in enumerate(enumerated_impl_trees()):
+        run_model(ctx, m, defaults, trees, stream, with_model, check_main=(k == 0), twin_ok=True)
+    # enumerated, seed independent: constructors with declared defaults
+    for k, (m, defaults, trees, stream) in enumerate(enumerated_ctor_trees()):
+        run_model(ctx, m, defaults, trees, stream, with_model, check_main=(k == 0), twin_ok=True, model_every=4)
     # enumerated, seed independent: the same models with every name shape the front end accepts
     for k, (m, defaults, trees, stream) in enumerate(enumerated_named_trees()):
         run_model(ctx, m, defaults, trees, stream, with_model, check_main=(k % 6 == 0), twin_ok=plain_ok)
     # random: focused models
     for k in range(ctx.n(24, 300)):
         m, defaults = random_model(ctx.rng)
+        if ctx.rng.random() < 0.5:
+            decorate_model(ctx.rng, m)
+            ctx.hit("random:decorated")
         b = Builder(m, ctx.rng)
         concrete = [c.name for c in m.classes if not c.abstract]
         trees = []
@@ -1377,6 +2407,36 @@ def _run(ctx: Ctx, with_model: bool) -> None:
         run_model(ctx, m, defaults, trees, "platform", with_model, check_main=(k % 5 == 0))
     if ctx.tier == "thorough":
         run_fixture(ctx, with_model)
+
+
+def decorate_model(rng: random.Random, m: mm.MM) -> None:
+    """Random hand-written classes and constructors with declared defaults for a focused random model (in place)."""
+    enum_name = m.enums[0].name if m.enums else None
+    for c in m.classes:
+        if not c.abstract and rng.random() < 0.2:  # (the front end rejects abstract implementation-specific classes)
+            c.impl_specific = True
+        spec: Dict[str, Any] = {"stmt": {}, "sig": {}}
+        for p in c.props:
+            t = p.type
+            if p.name == "ident":
+                continue
+            if isinstance(t, mm.OptionalOf) and isinstance(t.item, mm.ListOf) and rng.random() < 0.5:
+                spec["stmt"][p.name] = {"d": ["list"], "form": rng.choice(["isnot", "is"])}
+            elif isinstance(t, mm.OptionalOf) and isinstance(t.item, mm.Ref) and t.item.name == enum_name and rng.random() < 0.6:
+                spec["stmt"][p.name] = {"d": ["enum", enum_name, rng.choice(m.enums[0].literals).name], "form": rng.choice(["isnot", "is"])}
+            elif isinstance(t, mm.ListOf) and rng.random() < 0.15:
+                spec["stmt"][p.name] = {"d": ["list"], "form": "isnot"}
+            elif isinstance(t, mm.Prim) and t.name in ("int", "str", "bool", "float") and rng.random() < 0.4:
+                spec["sig"][p.name] = W.jsonable(rng.choice([x for x in LEAF_VALUES[t.name] if not (isinstance(x, (int, float)) and not isinstance(x, bool) and x < 0)]))
+            elif isinstance(t, mm.Ref) and t.name == enum_name and rng.random() < 0.4:
+                spec["sig"][p.name] = W.jsonable(EnumVal(enum_name, rng.choice(m.enums[0].literals).name))
+        if spec["stmt"] or spec["sig"] or rng.random() < 0.3:
+            names = [p.name for p in c.props]
+            rng.shuffle(names)
+            spec["order"] = names
+            if c.bases and names:
+                spec["super_at"] = rng.randint(0, len(names))
+            with_cspec(c, spec)
 
 
 def mm_from_symbol_table(st: Any) -> mm.MM:
@@ -1455,7 +2515,13 @@ def correspond(ctx: Ctx) -> None:
         "concrete-with-descendant x plain/optional/list/optional list/nested lists) x {None, [], one, several, nested with empty members} "
         "x neighbours present/absent + X_or_default masks + an inheritance-order model; the same models once per name shape (17 "
         "shapes of class / property / enumeration / literal / constrained-primitive names: abbreviations, digits, single letters, "
-        "mixed case, empty parts, leading / trailing underscore); random: focused class DAGs and models of the "
+        "mixed case, empty parts, leading / trailing underscore); hand-written (implementation-specific) classes at every position "
+        "(leaf / with descendants / below generated classes / holders / all); one model of constructors with declared defaults (every "
+        "ordered pair and longer orders of None / [] statements / enumeration-literal statements / primitive and enumeration signature "
+        "defaults, split over hierarchies) x arguments passed / omitted / None; histories (six models re-using the same names for "
+        "constrained primitive / enumeration / leaf / nested / hand-written / abstract class, generated one after the other in fresh "
+        "processes in both directions, compared with the generation alone); random: focused class DAGs (half of them with random "
+        "hand-written classes and constructor defaults), random histories with colliding names and models of the "
         "shared platform generator with random conforming trees (incl. shared objects); non-trivial = more than one instance; "
         "distinct by (model, tree) wire form; every instance of every tree is exercised"
     )
@@ -1487,6 +2553,8 @@ def replay(ctx: Ctx, data: Dict[str, Any]) -> Any:
         run_model(sub, fsdk.mm, {}, trees, inp["mm"]["fixture"], ctx.driver_ok, sdk=fsdk)
         return {"oracle": [[f["sig"], f["what"]] for f in sub.failures], "model_vs_impl": sub.disagreements[:5], "notes": sub.notes}
     m, defaults = mm_from_json(inp["mm"])
+    if inp.get("history"):
+        return replay_history(ctx, sub, inp, m, defaults, trees)
     run_model(sub, m, defaults, trees, "replay", ctx.driver_ok)
     res: Dict[str, Any] = {"oracle": [[f["sig"], f["what"]] for f in sub.failures], "model_vs_impl": sub.disagreements[:5], "notes": sub.notes}
     if trees:
@@ -1494,6 +2562,33 @@ def replay(ctx: Ctx, data: Dict[str, Any]) -> Any:
         if sdk.ok:
             sdk.realise(trees[0])
             res["impl"] = {"descend_once": _names(sdk, run_list(trees[0].obj.descend_once)), "descend": _names(sdk, run_list(trees[0].obj.descend))}
+    return res
+
+
+def replay_history(ctx: Ctx, sub: Ctx, inp: Dict[str, Any], m: mm.MM, defaults: Dict[str, Any], trees: List[Inst]) -> Any:
+    """Re-run a recorded history in ONE fresh process, and the last model alone in another one."""
+    from harness import c29_fresh
+
+    before = [mm_from_json(h) for h in inp["history"]]
+    pool = c29_fresh.Pool()
+    try:
+        t_hist = pool.submit([Sdk(a, b).job() for a, b in before] + [Sdk(m, defaults).job()])
+        t_alone = pool.submit([Sdk(m, defaults).job()])
+        after, alone = pool.result(t_hist)[-1], pool.result(t_alone)[0]
+    finally:
+        pool.close()
+    res: Dict[str, Any] = {"history_length": len(before), "same_text_as_alone": after.get("code") == alone.get("code"),
+                           "alone": "sdk" if "code" in alone else (alone.get("crash") or "rejected"),
+                           "after_history": "sdk" if "code" in after else (after.get("crash") or "rejected")}
+    if "code" in alone and "code" not in after:
+        what = after.get("crash") or "rejected"
+        sub.fail(inp, f"generate_types gives no SDK ({what}) after the history; alone it does", "C29:history:unusable:" + what)
+    else:
+        sdk = Sdk(m, defaults).adopt_result(after)
+        run_model(sub, m, defaults, trees, "replay", ctx.driver_ok, sdk=sdk, extra_input={"history": inp["history"]})
+        if trees and sdk.ok and trees[0].obj is not None:
+            res["impl"] = {"descend_once": _names(sdk, run_list(trees[0].obj.descend_once)), "descend": _names(sdk, run_list(trees[0].obj.descend))}
+    res.update({"oracle": [[f["sig"], f["what"]] for f in sub.failures], "model_vs_impl": sub.disagreements[:5], "notes": sub.notes})
     return res
 
 
@@ -1593,6 +2688,33 @@ def gen_SdkDescend(repo: Any) -> str:
     if guard is None:
         raise ExtractError("guard of over_X_or_empty not found")
     concrete_guard = any(isinstance(n, ast.If) and ast.unparse(n.test) == "isinstance(cls, intermediate.ConcreteClass)" for n in ast.walk(gen_class))
+    # _generate_constructor: the assignment templates and the order of the tests on the kind of the default
+    gen_ctor = next((n for n in tree.body if isinstance(n, ast.FunctionDef) and n.name == "_generate_constructor"), None)
+    if gen_ctor is None:
+        raise ExtractError("_generate_constructor not found")
+    assigns = []
+    tests = []
+    for n in ast.walk(gen_ctor):
+        if isinstance(n, ast.JoinedStr):
+            text = fstr(n)
+            if text.lstrip().startswith("self."):
+                assigns.append((n.lineno, n.col_offset, "|".join(ln.replace("{II}", "").replace("{I}", "").strip() for ln in text.strip().split("\n"))))
+        if isinstance(n, ast.Call) and ast.unparse(n.func) == "isinstance" and len(n.args) == 2 and ast.unparse(n.args[0]) == "stmt.default":
+            tests.append((n.lineno, n.col_offset, ast.unparse(n.args[1]).split(".")[-1]))
+    assigns_s = [t for _, _, t in sorted(assigns)]
+    tests_s = [t for _, _, t in sorted(tests)]
+    # the eight visitor / transformer generators: what their loop over the classes iterates
+    loops = []
+    for fname in ("_generate_abstract_visitor", "_generate_abstract_visitor_with_context", "_generate_pass_through_visitor",
+                  "_generate_pass_through_visitor_with_context", "_generate_abstract_transformer", "_generate_abstract_transformer_with_context",
+                  "_generate_transformer_with_default", "_generate_transformer_with_default_and_context"):
+        fn = next((n for n in tree.body if isinstance(n, ast.FunctionDef) and n.name == fname), None)
+        if fn is None:
+            raise ExtractError(f"{fname} not found")
+        its = [ast.unparse(n.iter) for n in ast.walk(fn) if isinstance(n, ast.For) and isinstance(n.target, ast.Name) and n.target.id == "cls"]
+        if len(its) != 1:
+            raise ExtractError(f"{fname}: expected exactly one loop over the classes, found {its}")
+        loops.append((fname, its[0]))
 
     def s(x: str) -> str:
         return json.dumps(x, ensure_ascii=True)
@@ -1619,6 +2741,17 @@ def gen_SdkDescend(repo: Any) -> str:
         "",
         "/-- guard of the `over_X_or_empty` accessor -/",
         f"def overOrEmptyGuard : String := {s(guard)}",
+        "",
+        "/-- assignment templates of `_generate_constructor`, in source order (lines joined by `|`, indentation dropped) -/",
+        f"def ctorAssignments : List String := [{', '.join(s(t) for t in assigns_s)}]",
+        "",
+        "/-- the `isinstance(stmt.default, …)` tests of `_generate_constructor`, in source order -/",
+        f"def ctorDefaultTests : List String := [{', '.join(s(t) for t in tests_s)}]",
+        "",
+        "/-- (generator of a visitor / transformer class, what its `for cls in …` loop iterates) -/",
+        "def dispatcherLoops : List (String × String) := [",
+        ",\n".join(f"  ({s(a)}, {s(b)})" for a, b in loops),
+        "]",
         "",
         "end AasVerif.Gen.SdkDescend",
         "",
